@@ -164,12 +164,6 @@ namespace detail
 
 
 	template<>
-	struct storage<3, detail::uint64, true>
-	{
-		typedef glm_u64vec2 type;
-	};
-
-	template<>
 	struct storage<4, double, true>
 	{
 #	if (GLM_ARCH & GLM_ARCH_AVX_BIT)
